@@ -7,13 +7,12 @@ import (
 	"time"
 
 	"github.com/pkg/errors"
-	"github.com/xelaj/go-dry/ioutil"
 )
 
 type tcpConn struct {
-	cancelReader *ioutil.CancelableReader
-	conn         *net.TCPConn
-	timeout      time.Duration
+	ctx     context.Context
+	conn    *net.TCPConn
+	timeout time.Duration
 }
 
 type TCPConnConfig struct {
@@ -32,10 +31,15 @@ func NewTCP(cfg TCPConnConfig) (Conn, error) {
 		return nil, errors.Wrap(err, "dialing tcp")
 	}
 
+	ctx := cfg.Ctx
+	if ctx == nil {
+		ctx = context.Background()
+	}
+
 	return &tcpConn{
-		cancelReader: ioutil.NewCancelableReader(cfg.Ctx, conn),
-		conn:         conn,
-		timeout:      cfg.Timeout,
+		ctx:     ctx,
+		conn:    conn,
+		timeout: cfg.Timeout,
 	}, nil
 }
 
@@ -53,8 +57,14 @@ func (t *tcpConn) Read(b []byte) (int, error) {
 		check(err)
 	}
 
-	n, err := t.cancelReader.Read(b)
+	// reading exactly len(b) bytes: net.TCPConn returns as many bytes as it has. Reading is cancelled by
+	// closing the connection when context is done (see CloseOnCancel): cancelable reader from go-dry can't be
+	// used here, cause its Read panics (send on closed channel) when it's called after cancellation
+	n, err := io.ReadFull(t.conn, b)
 	if err != nil {
+		if t.ctx.Err() != nil {
+			return 0, t.ctx.Err()
+		}
 		if e, ok := err.(*net.OpError); ok {
 			if e.Err.Error() == "i/o timeout" {
 				// timeout? no worries, but we must reconnect tcp connection
